@@ -81,6 +81,7 @@ type linkResult struct {
 	Writes   []sinkWrite `json:"writes"`
 	Closed   int64       `json:"closed"` // -1 = not closed at the horizon
 	PrefixOK bool        `json:"prefix_ok"`
+	SubseqOK bool        `json:"subseq_ok"` // what was received is an in-order part of what was sent
 	Total    int         `json:"total"`
 	SrcTotal int         `json:"src_total"` // bytes the source managed to write by the horizon
 	Rx       float64     `json:"rx"`        // received_bytes_total at the end (after teardown)
@@ -215,7 +216,7 @@ func runLinks(t *testing.T, raw []byte) []linkResult {
 	return res
 }
 
-const watchdogSeconds = 25
+const watchdogSeconds = 8
 
 func runLinkCase(t *testing.T, c *linkCase) linkResult {
 	rand.Seed(c.Seed + 1)
@@ -355,6 +356,19 @@ func runLinkCase(t *testing.T, c *linkCase) linkResult {
 				r.PrefixOK = false
 				break
 			}
+		}
+		// greedy in-order matching against the bytes the source has written so far
+		r.SubseqOK = true
+		pos := 0
+		for _, b := range s.data {
+			for pos < srcTotals[k] && pattern(pos) != b {
+				pos++
+			}
+			if pos >= srcTotals[k] {
+				r.SubseqOK = false
+				break
+			}
+			pos++
 		}
 		s.mu.Unlock()
 		results[k] = r
